@@ -321,7 +321,8 @@ Definition seg_ok (cx : ctx) (g : ghost) (s : socket) (r : tcp_repr) (zwp ka : b
   (ka = true ->
      r_payload r = [0] /\ r_control r = CNone /\
      r_seq_number r = seq_subn (tcp_send_next_seq s) 1 /\
-     timer_should_keep_alive (s_timer s) (cx_now cx) = true) /\
+     timer_should_keep_alive (s_timer s) (cx_now cx) = true /\
+     r_window_len r = tcp_scaled_window s) /\
   (ka = false ->
      (0 < n \/ r_control r = CFin ->
         g_phase g = PData /\ data_state (s_state s) = true /\
@@ -400,8 +401,9 @@ Proof.
         split; [intros [X|X]; [lia|discriminate]|]. split; [discriminate|]. split; [discriminate|].
         intros _. repeat split; reflexivity.
       + split; [exact Hs2|]. unfold seg_ok. cbv zeta. split; [|discriminate]. intros _.
-        rewrite Er2. cbn [repr_set_seq repr_set_payload r_payload r_control r_seq_number].
-        rewrite Hts1, <- Hts2. auto.
+        rewrite Er2, Er. cbn [repr_set_seq repr_set_payload repr_set_control r_payload r_control r_seq_number
+                              r_window_len repr].
+        rewrite Hts1, <- Hts2, Ec. auto 6.
     - (* a data segment and/or a FIN *)
       destruct (post_nonempty _ _ _ _ _ _ _ _ _ _ Hcx Eemp Hp) as (-> & -> & -> & Er2).
       assert (Ecs : control_eqb (r_control r1) CSyn = false).
@@ -492,8 +494,9 @@ Proof.
       rewrite l_len_nil.
       split; [intros [X|X]; [lia|discriminate]|]. split; [discriminate|]. split; [discriminate|].
       intros _. repeat split; reflexivity.
-    + split; [|discriminate]. intros _. cbn [repr_set_seq repr_set_payload r_payload r_control r_seq_number repr].
-      auto.
+    + split; [|discriminate]. intros _.
+      cbn [repr_set_seq repr_set_payload r_payload r_control r_seq_number r_window_len repr].
+      auto 6.
   - (* CloseWait *)
     destruct (tcp_dispatch_build_data cx s repr) as [[[[s2' [r1|]] zwp1] tg1]| |] eqn:Eb;
       cbn [obind] in H; try discriminate.
@@ -515,6 +518,7 @@ Proof.
       rewrite l_len_nil.
       split; [intros [X|X]; [lia|discriminate]|]. split; [discriminate|]. split; [discriminate|].
       intros _. repeat split; reflexivity.
-    + split; [|discriminate]. intros _. cbn [repr_set_seq repr_set_payload r_payload r_control r_seq_number repr].
-      auto.
+    + split; [|discriminate]. intros _.
+      cbn [repr_set_seq repr_set_payload r_payload r_control r_seq_number r_window_len repr].
+      auto 6.
 Qed.
